@@ -597,7 +597,7 @@ class FnEmitter:
                 if ins.res is None: continue
                 ty = s.result_type(ins)
                 if E.res(ty).k != 'void': s.define(ins.res, ty)
-        for bi, b in enumerate(f.blocks):
+        for bi, b in enumerate(s.layout(f.blocks)):
             s.w('L_%s: ;' % cid(b.name))
             for ins in b.ins:
                 try:
@@ -606,6 +606,74 @@ class FnEmitter:
                     raise Unsupported('%s   [in: %s]' % (e, ins.line))
         hdr = '%s %s(%s) {' % (E.ctype(f.ret), E.gname(f.name), ', '.join(params) or 'void')
         return '\n'.join([hdr] + ['  ' + d for d in s.decls] + s.body + ['}'])
+
+    def layout(s, blocks):
+        """Order of the basic blocks in the generated C.  CBMC identifies loops with backward gotos, so a block that is textually before a jump
+        to it looks like a loop head even if it is a loop EXIT; unwinding counters of such fake loops interact and produce spurious unwinding-
+        assertion failures.  Blocks are therefore laid out loop by loop: strongly connected components in topological order, each loop
+        contiguous with its header first and its exits after it (recursively for inner loops); ties keep the LLVM order."""
+        idx = {b.name: i for i, b in enumerate(blocks)}
+        succ = {}
+        for b in blocks:
+            t = b.ins[-1] if b.ins else None; out = []
+            if t is not None:
+                if t.op == 'br': out = [t.x['dest']]
+                elif t.op == 'condbr': out = [t.x['t'], t.x['f']]
+                elif t.op == 'switch': out = [t.x['default']] + [lb for _, lb in t.x['cases']]
+                elif t.op == 'invoke': out = [t.x['normal'], t.x['unwind']]
+            succ[b.name] = [x for x in dict.fromkeys(out) if x in idx]
+        def sccs(nodes, edges):
+            index = {}; low = {}; st = []; on = set(); res = []; cnt = [0]
+            for root in sorted(nodes, key=lambda n: idx[n]):
+                if root in index: continue
+                work = [(root, iter(edges(root)))]; index[root] = low[root] = cnt[0]; cnt[0] += 1; st.append(root); on.add(root)
+                while work:
+                    v, it = work[-1]; adv = False
+                    for w in it:
+                        if w not in nodes: continue
+                        if w not in index:
+                            index[w] = low[w] = cnt[0]; cnt[0] += 1; st.append(w); on.add(w); work.append((w, iter(edges(w)))); adv = True; break
+                        elif w in on: low[v] = min(low[v], index[w])
+                    if adv: continue
+                    work.pop()
+                    if work: low[work[-1][0]] = min(low[work[-1][0]], low[v])
+                    if low[v] == index[v]:
+                        comp = []
+                        while True:
+                            w = st.pop(); on.discard(w); comp.append(w)
+                            if w == v: break
+                        res.append(comp)
+            return res
+        def order(nodes, edges, entry):
+            comps = sccs(nodes, edges); cid_ = {}
+            for i, c in enumerate(comps):
+                for n in c: cid_[n] = i
+            indeg = [0] * len(comps); out = [set() for _ in comps]
+            for n in nodes:
+                for w in edges(n):
+                    if w in nodes and cid_[w] != cid_[n] and cid_[w] not in out[cid_[n]]: out[cid_[n]].add(cid_[w]); indeg[cid_[w]] += 1
+            key = lambda i: (0 if entry in comps[i] else 1, min(idx[n] for n in comps[i]))
+            ready = sorted([i for i in range(len(comps)) if indeg[i] == 0], key=key); res = []
+            while ready:
+                i = ready.pop(0); c = comps[i]
+                if len(c) == 1 and c[0] not in [w for w in edges(c[0])]: res.append(c[0])
+                else:
+                    cs = set(c)
+                    heads = [n for n in c if n == entry or any(n in edges(p) for p in nodes if p not in cs)]
+                    h = min(heads or c, key=lambda n: idx[n])
+                    inner = lambda n, h=h, cs=cs: [w for w in edges(n) if w != h and w in cs]
+                    res += order(cs, inner, h)
+                for k in out[i]:
+                    indeg[k] -= 1
+                    if indeg[k] == 0: ready.append(k)
+                ready.sort(key=key)
+            return res
+        try:
+            names = order(set(idx), lambda n: succ[n], blocks[0].name)
+            if len(names) != len(blocks) or names[0] != blocks[0].name: return blocks
+            return [s.bmap[n] for n in names]
+        except RecursionError:
+            return blocks
 
     def result_type(s, ins):
         E = s.E; op = ins.op
